@@ -35,11 +35,13 @@ let hop = function
 
 let rec stmt = function
   | L (A "use" :: ids) -> SUse (List.map nat ids)
-  | L [A "group"; p; L m; L body] -> SGroup (str p, List.map nat m, List.map stmt body)
+  | L [A "group"; p; L m; L body]
+  | L [A "group"; p; L m; L body; A "ctl"] (* Router.Controller(p, c, m...) with c.AddRoutes = body: a Group by definition *)
+    -> SGroup (str p, List.map nat m, List.map stmt body)
   | L [A "route"; L ms; p; main; L var; L later; name]
   (* the optional 8th element names the entry point used by the harness (add: r.Add(..).Use(var..);
      pre: NewRoute(..).Use(var..) then AddRoute): the model gives both the same meaning *)
-  | L [A "route"; L ms; p; main; L var; L later; name; A ("add" | "pre")] ->
+  | L [A "route"; L ms; p; main; L var; L later; name; A ("add" | "pre" | "attach" | "short")] ->
     SRoute (List.map str ms, str p, nat main, List.map nat var, List.map nat later, str name)
   | L (A "nf" :: ids) -> SNotFound (List.map nat ids)
   | L (A "nal" :: ids) -> SNotAllowed (List.map nat ids)
